@@ -1,5 +1,6 @@
 import Driver.Proto
 import Driver.C01
+import Driver.C02
 import Driver.C03
 import Driver.C04
 import Driver.C05
@@ -27,6 +28,7 @@ import Driver.C20Mon
 
 def suites : List (String × Driver.Suite) :=
   Driver.C01.suites ++
+  Driver.C02.suites ++
   Driver.C03.suites ++
   Driver.C04.suites ++
   Driver.C05.suites ++
